@@ -320,17 +320,35 @@ def validate_cases(ctx, spec_dir, module, path, kind, cfg=None, libs=(), describ
     return len(cases)
 
 
-def expect_reject(ctx, spec_dir, module, path, mutate, what, cfg=None, libs=(), marker=None):
-    """B3: a corrupted copy of a trace must be rejected, otherwise the binding is vacuous."""
-    evs = read_ndjson(path)
+def expect_reject(ctx, spec_dir, module, path, mutate, what, cfg=None, libs=(), marker="reset"):
+    """B3: a corrupted copy of a trace must be rejected, otherwise the binding is vacuous.
+    Only the case that contains the corruption is re-validated (cases start at `marker` events)."""
+    import copy
+    orig = read_ndjson(path)
+    evs = copy.deepcopy(orig)
     if not mutate(evs):
         if ctx.violations or ctx.known_hits:
             # the run already deviates from the specification; the self-test is moot for this corruption
             ctx.extra.setdefault("b3_skipped", []).append(what)
             return
         raise ToolError("B3 could not find an event to corrupt in " + path)
+    # locate the first difference
+    first = None
+    for i in range(min(len(orig), len(evs))):
+        if orig[i] != evs[i]:
+            first = i
+            break
+    if first is None:
+        first = min(len(orig), len(evs)) - 1
+    # the enclosing case
+    lo = first
+    while lo > 0 and evs[lo].get("ev") != marker:
+        lo -= 1
+    hi = first + 1
+    while hi < len(evs) and evs[hi].get("ev") != marker:
+        hi += 1
     p2 = path + ".corrupt"
-    write_ndjson(p2, evs)
+    write_ndjson(p2, evs[lo:hi])
     ok, rej, res = trace_validate(spec_dir, module, p2, cfg=cfg, libs=libs)
     ctx.add_tlc(res)
     if ok:
